@@ -31,7 +31,8 @@ func TestC16ClockJumps(t *testing.T) {
 }
 
 func runJumps(t *testing.T, rt *rapid.T) {
-	const unit = 10 * time.Millisecond
+	// the lattice's time unit: milliseconds up to hours (deadlines minutes or hours away behave like near ones)
+	unit := rapid.SampledFrom([]time.Duration{10 * time.Millisecond, 10 * time.Millisecond, time.Second, 7 * time.Minute, 3 * time.Hour}).Draw(rt, "timeUnit")
 	clock := clockwork.NewFakeClock()
 	w := &world{base: clock.Now(), deadline: map[core.Duty]time.Duration{}}
 	nDuties := rapid.IntRange(2, 24).Draw(rt, "nDuties")
